@@ -487,6 +487,11 @@ mut("C17", "repair-undone-recordings-lock", IO,
     'is not recst]',
     '    if True:\n      self._recordings = [rec for rec in self._recordings '
     'if rec is not recst]')
+mut("C17", "repair-undone-close-drains-generator", IO,
+    "          for unused in recst._rec: # Ensure it'll be closed, whatever "
+    "had\n            pass                    # been done in place with the "
+    "stream\n",
+    "          recst.take(float('inf'))\n")
 
 
 def main():
